@@ -104,12 +104,12 @@ class Check:
                         "disallowed assumptions: %s" % bad if bad else "")
         return True, "", log
 
-    def source_tie(self, template_rel="Src_inst.v"):
+    def source_tie(self, template_rel="Src_inst.v", with_tables=False):
         """second tie, for the integer kernels only: translate the CURRENT source text (tools/gen_src.py, fail-closed) into MiniPy
         syntax and re-prove, against that text, that its interpretation equals the model for every argument (run/Src_inst.v).
         Not an obligation: when the text has been rewritten beyond what the translator or the proof script accepts, the
         check falls back to the sampled correspondence with the thorough corpus and says so in the evidence."""
-        tie = {"functions": ["calc_crc24q", "crc2bytes", "len2bytes"], "status": "not-established", "detail": ""}
+        tie = {"functions": ["rtcmhelpers.calc_crc24q", "rtcmhelpers.crc2bytes", "rtcmhelpers.len2bytes", "RTCMMessage.serialize", "RTCMMessage.identity"], "status": "not-established", "detail": ""}
         self.extra_cov["source_tie"] = tie
         out = os.path.join(self.work, "Src.v")
         env = vlib.impl_env()
@@ -139,13 +139,23 @@ class Check:
                     else:
                         tie["status"] = "proved"
                         tie["detail"] = "interpretation of the translated source = model, for all arguments (%.1fs)" % (secs + secs2)
+                        if with_tables:
+                            src2 = os.path.join(vlib.VERIF, "run", "Src_tables_inst.v")
+                            dst2 = os.path.join(self.work, "Src_tables_inst.v")
+                            shutil.copy(src2, dst2)
+                            ok3, log3, _ = vlib.coqc(dst2, self.work, 300)
+                            t3 = self._parse_assumptions(log3) if ok3 else {}
+                            if ok3 and t3 and not [a for v in t3.values() for a in v if not self._axiom_allowed(a)]:
+                                thms.update(t3)
+                            else:
+                                tie["detail"] += "; header constant of the source text not matched with the working tree's tables: " + log3[-300:]
                         for name, ax in thms.items():
                             self.axioms[name] = ax
                             self.oblige("source theorem %s: MiniPy interpretation of the current source text = model (Print Assumptions: %s)"
                                         % (name, "closed" if not ax else ", ".join(ax)), "source-theorem", True)
         if tie["status"] != "proved":
             self.force_thorough = True
-            self.notes.append("source tie for the CRC kernels not established (%s): falling back to the sampled correspondence with the thorough corpus" % tie["detail"][:300])
+            self.notes.append("source tie (CRC kernels, serialize, identity) not established (%s): falling back to the sampled correspondence with the thorough corpus" % tie["detail"][:300])
         else:
             self.notes.append("source tie: " + tie["detail"])
         return tie["status"] == "proved"
